@@ -449,6 +449,10 @@ def gen_hexital(rng, size, ha_ok=False, life_ok=False, programs=True, enc=None):
             elif k < 0.85:
                 # add a new member – half of the time one that re-uses the name of an existing (possibly removed) member
                 sp2 = specs.gen_spec(rng)
+                if sp2.get("name") is not None and any(m.get("name") == sp2["name"] and m.get("kind") != sp2.get("kind") for m in members):
+                    # (a different class re-registered under a name whose stale readings of another TYPE - dict vs number - are still on
+                    # the candles is outside the stated domain: the model's Counter converts a truthy previous reading eagerly)
+                    sp2.pop("name")
                 if rng.random() < 0.5:
                     sp2 = dict(rng.choice(members))
                     if "input" in sp2:
